@@ -76,7 +76,7 @@ def is_feasible_call(e):
     return isinstance(e, ast.Call) and call_name(e) == FEAS
 
 
-def rule_pipeline(ck):
+def rule_pipeline(ck, rid="C07.R1"):
     repo = ck.repo
     for cname, alg in (("SortedSchedulingAlgo", "sorting_algorithm"), ("RoundRobin", "round_robin")):
         f = repo.fn(f"{cname}.schedule")
@@ -85,10 +85,10 @@ def rule_pipeline(ck):
         info = "self.interface.infrastructure_info()"
         want = f"self.run_postprocessing(self.{alg}(self.run_preprocessing({sess}, {info}), {info}), {info})"
         rets = [n for n in fl.cfg.nodes if n.kind == "return"]
-        ck.require(len(rets) == 1, "C07.R1", f, "single return", bad=f"{len(rets)} returns in {cname}.schedule", sink=f"{cname}:returns")
+        ck.require(len(rets) == 1, rid, f, "single return", bad=f"{len(rets)} returns in {cname}.schedule", sink=f"{cname}:returns")
         for r in rets:
             got = canon(fl.expand(r.expr, r))
-            ck.require(got == want, "C07.R1", f, r.expr, ok="postprocess(algorithm(preprocess(sessions, info), info), info)",
+            ck.require(got == want, rid, f, r.expr, ok="postprocess(algorithm(preprocess(sessions, info), info), info)",
                        bad=f"the returned schedule is `{got[:150]}`; it must pass through preprocessing, the allocation and postprocessing with one infrastructure description",
                        sink=f"{cname}:pipeline")
     pre = repo.fn("SortedSchedulingAlgo.run_preprocessing")
@@ -99,7 +99,7 @@ def rule_pipeline(ck):
     alts = []
     for r in rets:
         alts += alts_deep(fl.expand(r.expr, r), limit=16)
-    ck.require(len(alts) == 4, "C07.R1", pre, "four option combinations", ok="one result per combination of the two options", bad=f"{len(alts)} distinct results of run_preprocessing (expected 4)",
+    ck.require(len(alts) == 4, rid, pre, "four option combinations", ok="one result per combination of the two options", bad=f"{len(alts)} distinct results of run_preprocessing (expected 4)",
                sink="pre:combinations")
     core = f"enforce_pilot_limit(remove_finished_sessions({sess}, {infra}, self.interface.period), {infra})"
     seen = set()
@@ -113,16 +113,16 @@ def rule_pipeline(ck):
         if mn:
             exp = f"apply_minimum_charging_rate({exp}, {infra}, self.interface.period)"
         seen.add((est, mn))
-        ck.require(s == exp, "C07.R1", pre, a, ok="finished sessions removed, then pilot limit, then estimator, then minimum rate - each fed the previous result",
+        ck.require(s == exp, rid, pre, a, ok="finished sessions removed, then pilot limit, then estimator, then minimum rate - each fed the previous result",
                    bad=f"preprocessing result `{s[:160]}` is not the required chain `{exp[:160]}`", sink=f"pre:chain:{int(est)}{int(mn)}")
-    ck.require(seen == {(False, False), (True, False), (False, True), (True, True)}, "C07.R1", pre, "option combinations", bad=f"combinations found: {sorted(seen)}",
+    ck.require(seen == {(False, False), (True, False), (False, True), (True, True)}, rid, pre, "option combinations", bad=f"combinations found: {sorted(seen)}",
                sink="pre:combos-set")
     for nm, flag in (("apply_upper_bound_estimate", "self.estimate_max_rate"), ("apply_minimum_charging_rate", "self.uninterrupted_charging")):
         for n, c in calls_in(fl, nm):
             fs = [(canon(a), t) for a, t in facts_at(fl, n)]
-            ck.require((flag, True) in fs, "C07.R1", pre, c, ok=f"applied exactly when {flag}", bad=f"{nm} is not guarded by {flag}", sink=f"pre:{nm}:guard")
+            ck.require((flag, True) in fs, rid, pre, c, ok=f"applied exactly when {flag}", bad=f"{nm} is not guarded by {flag}", sink=f"pre:{nm}:guard")
         edges = [e for e in cfg.nodes if e.kind == "edge" and e.test.kind == "test" and e.label is True and canon(e.test.expr) == flag]
-        ck.require(len(edges) == 1 and all(cfg.exit not in cfg.reach(e, avoid={n for n, c in calls_in(fl, nm)}) for e in edges), "C07.R1", pre, flag,
+        ck.require(len(edges) == 1 and all(cfg.exit not in cfg.reach(e, avoid={n for n, c in calls_in(fl, nm)}) for e in edges), rid, pre, flag,
                    ok=f"every path with {flag} applies {nm}", bad=f"a path with {flag} set skips {nm}", sink=f"pre:{nm}:always")
 
 
@@ -537,13 +537,13 @@ def rule_index(ck):
 
 
 def run(ck):
-    rule_pipeline(ck)
-    rule_pre_details(ck)
-    rule_bounds(ck)
-    rule_tentative(ck)
-    rule_output(ck)
-    rule_units(ck)
-    rule_index(ck)
+    ck.attempt(rule_pipeline)
+    ck.attempt(rule_pre_details)
+    ck.attempt(rule_bounds)
+    ck.attempt(rule_tentative)
+    ck.attempt(rule_output)
+    ck.attempt(rule_units)
+    ck.attempt(rule_index)
     from .c06 import rule_utils, rule_row_acceptance
     rule_utils(ck)       # the checker the algorithms rely on: no shortcut acceptance, every row, every period (rule ids C06.*)
-    rule_row_acceptance(ck, rid="C07.R8")
+    ck.attempt(rule_row_acceptance, rid="C07.R8")
